@@ -5,7 +5,7 @@
    used to state the round-trip theorems). *)
 From ReqV Require Import Lib.Bytes Model.H1Resp Model.H1Render Model.H1RenderHead
   Proofs.H1RespProofs Proofs.H1HeadProofs Proofs.H1MimeProofs Proofs.H1TransferProofs
-  Model.H1Conn Proofs.H1SyncProofs Proofs.H1ConnProofs.
+  Model.H1Conn Proofs.H1SyncProofs Proofs.H1ConnProofs Model.H1Bufio Proofs.H1BufioProofs.
 From ReqV Require Gen.H1Tables.
 From Coq Require Import Lia.
 
@@ -376,6 +376,15 @@ Theorem C04_read_final_is_final : forall fuel meth n s r rest,
   read_final fuel meth n s = FhOk r rest -> is_1xx_nonterminal (r_code r) = false.
 Proof. exact read_final_is_final. Qed.
 Print Assumptions C04_read_final_is_final.
+
+(* the model's one-step line reader IS textproto's readLineSlice over bufio.ReadLine's
+   buffer-sized fragments (ReadSlice finds LF iff within the buffer; ErrBufferFull => isPrefix,
+   a trailing CR put back; a final fragment without LF; io.EOF drops what was read), for every
+   stream and every buffer size >= 2 (bufio's minimum is 16) *)
+Theorem C04_read_line_refines_bufio : forall n, 2 <= n -> forall s,
+  read_line_slice (S (length s)) n [] s = Some (read_line n s).
+Proof. exact read_line_refines_bufio. Qed.
+Print Assumptions C04_read_line_refines_bufio.
 
 (* x read buffer sizes: an accepted status line + header block + transfer decision does not
    depend on the read-buffer size *)
